@@ -18,7 +18,7 @@ def lang_context(lang, options=None, overrides=None):
 
 
 def gen_inprocess(types, root_dir, out, lang, order_seed=None, post_processors=None, templates_dir=None, options=None,
-                  support=False, overrides=None, omit_serialization_support=False, lctx=None, pre_calls=(), gen_kwargs=None):
+                  support=False, overrides=None, omit_serialization_support=False, lctx=None, pre_calls=(), gen_kwargs=None, fail_first=None):
     """Generate `types` with the real DSDLCodeGenerator; returns {relative path: bytes}.
     pre_calls: keyword dictionaries of earlier generate_all() calls made on the SAME generator objects before the final one
     (history of one generator: dry runs, other per-call options); the output directory is emptied before the final call."""
@@ -35,7 +35,28 @@ def gen_inprocess(types, root_dir, out, lang, order_seed=None, post_processors=N
     if templates_dir is not None:
         kw["templates_dir"] = pathlib.Path(templates_dir)
     kw.update(gen_kwargs or {})      # e.g. trim_blocks / lstrip_blocks / additional_filters
+    if fail_first is not None:
+        # history of ONE generator object: its first generate_all() is aborted by a file post-processor that raises on its
+        # fail_first-th file (after that file was rendered); the caller catches the error and calls generate_all() again
+        import nunavut._postprocessors as _pp
+
+        class FailOnce(_pp.FilePostProcessor):
+            calls = 0
+
+            def __call__(self, generated):
+                FailOnce.calls += 1
+                if FailOnce.calls == fail_first:
+                    raise RuntimeError("injected failure after %s was written" % generated.name)
+                return generated
+        kw["post_processors"] = list(kw.get("post_processors") or []) + [FailOnce()]
     g = nunavut.jinja.DSDLCodeGenerator(ns, **kw)
+    if fail_first is not None:
+        try:
+            g.generate_all(omit_serialization_support=omit_serialization_support)
+        except RuntimeError:
+            pass
+        import shutil
+        shutil.rmtree(out, ignore_errors=True)
     s = nunavut.jinja.SupportGenerator(ns, **({"post_processors": post_processors} if post_processors is not None else {})) if support else None
     for pk in pre_calls:
         g.generate_all(**pk)
